@@ -86,7 +86,8 @@ theorem rmDirs_frame (φ : Oracle) (cwd : CPath) (pattern : Bytes) (r : CPath) (
   Proofs.C08Cmd.rmDirs_frame φ cwd pattern r dirs s hn hd
 
 /-- The restoring of a list of entries (`Restorer.restore_trashed_file` on each), under EVERY fault
-    oracle.  `_partial`: the geometry of each entry (`EntryApart`: the directory `fs.mkdirs` creates,
+    oracle.  `_partial`: the geometry of each entry (`EntryApart`: the directory `fs.mkdirs` creates
+    — and, when the parent string has a `.`/`..` component, every head of it `os.makedirs` may make —,
     the destination — and the directory it leads to, when `shutil.move` moves INTO it —, the payload,
     the info file, as the strings resolve) is asked in EVERY state of the run, and either no link
     outside `r` leads into `r` in any of them, or no `rename` failed.  Then every state a kill can
@@ -327,6 +328,30 @@ theorem restore_initial_geometry_not_enough :
     (run noFaults (runRestore rc ro (some (b "0-1"))) { fs := WC }).2.fs.get (R ++ [b "files", b "zz"]) =
       some (.file [122] 0o644 0) :=
   Proofs.C08CmdEx.restore_initial_geometry_not_enough
+
+/-- The condition `parentHeads` of `EntryApart` is needed (`os.makedirs` works on the path STRING).
+    World `WD`: `/m/.Trash-1000` holds the file `z`, recorded as trashed from
+    `/m/.Trash/1000/gone/../../../zz`; `/m/.Trash/1000/gone` does not exist.  The other five conditions
+    of `EntryApart` hold for that entry in EVERY state of the run (the `realpath` of the parent string
+    is `/m`), `/m/.Trash` is insecure, no rename fails — yet `os.makedirs("/m/.Trash/1000/gone/../../..")`
+    makes the directory `gone` INSIDE the insecure directory before it fails with `EEXIST` (exit 1).
+    (REAL behaviour.) -/
+theorem restore_parent_heads_needed :
+    C08.Insecure WD rc.cwd (dirname (topDir rc (b "/m"))) ∧
+    topDir rc (b "/m") ∉ homeTrashPaths rc.env ∧
+    (∀ tv ∈ restoreTrashDirs WD rc ro.trashDir, tv.1 ≠ topDir rc (b "/m") →
+      ∀ e ∈ restoreEntriesOf WD rc.cwd tv.1 tv.2, ∀ x ∈ crashStates noFaults (runRestore rc ro (some (b "0"))) WD,
+        ¬ FS.under R (dirC x rc.cwd (dirname e.loc)) = true ∧
+        (∀ d, FS.resolve x rc.cwd e.loc = .ok d → Apart R d) ∧
+        (∀ x' ∈ crashStates noFaults (runRestore rc ro (some (b "0"))) WD, ∀ d, FS.resolve x' rc.cwd e.loc = .ok d →
+          ∀ q, followC x d = some q → Apart R q) ∧
+        (∀ p, FS.resolve x rc.cwd (pathOfBackupCopy e.info) = .ok p → Apart R p) ∧
+        (∀ i, FS.resolve x rc.cwd e.info = .ok i → Apart R i)) ∧
+    NoRenameFailed (run noFaults (runRestore rc ro (some (b "0"))) { fs := WD }).2.trace ∧
+    (run noFaults (runRestore rc ro (some (b "0"))) { fs := WD }).1.exit = 1 ∧
+    WD.get (R ++ [b "gone"]) = none ∧
+    (run noFaults (runRestore rc ro (some (b "0"))) { fs := WD }).2.fs.get (R ++ [b "gone"]) = some (.dir 0o755 0) :=
+  Proofs.C08CmdEx.restore_parent_heads_needed
 
 /-- the twins ARE the commands -/
 theorem twins (c : ReadCfg) (o : EmptyOpts) (args : List Bytes) (fs : FS) :
